@@ -475,10 +475,10 @@ Lemma mset_eqb_refl {A} (e:A->A->bool) l : (forall a, e a a = true) -> mset_eqb 
 Proof. intros He. induction l; simpl; auto. rewrite He. auto. Qed.
 Lemma ty_eqb_refl t : ty_eqb t t = true.
 Proof. unfold ty_eqb. rewrite N.eqb_refl, list_eqbN_refl. auto. Qed.
-Lemma dflt_eqb_refl d : dflt_eqb d d = true.
-Proof. destruct d; simpl; apply list_eqbN_refl. Qed.
 Lemma opt_eqb_refl {A} (e:A->A->bool) o : (forall a, e a a = true) -> opt_eqb e o o = true.
 Proof. intros H. destruct o; simpl; auto. Qed.
+Lemma dflt_eqb_refl d : dflt_eqb d d = true.
+Proof. destruct d; simpl; rewrite ?list_eqbN_refl, ?(opt_eqb_refl Bool.eqb); auto using eqb_reflx. Qed.
 Lemma col_eqb_refl c : col_eqb c c = true.
 Proof. unfold col_eqb. rewrite N.eqb_refl, ty_eqb_refl, !eqb_reflx, (opt_eqb_refl dflt_eqb); auto using dflt_eqb_refl. Qed.
 Lemma cons_eqb_refl k : cons_eqb k k = true.
